@@ -13,6 +13,7 @@ import (
 	"strconv"
 	"strings"
 	"sync"
+	"sync/atomic"
 )
 
 // Violation is one refuting observation.
@@ -101,7 +102,13 @@ func (r *Recorder) At(phase, index int) {
 
 // Eval counts one evaluated case; sig identifies the case for distinct
 // accounting and is only kept when the case is non-trivial by the property's rule.
+// Ticks counts the recordings made by the monitors of this process (every Eval, Count and Max).  The monitors record
+// something after nearly every call into the library, so a case that is alive keeps the count moving; the guard
+// (props.StartCPUGuard) measures the CPU time and the idle time spent since the LAST recording, not since the case began.
+var Ticks atomic.Int64
+
 func (r *Recorder) Eval(sig uint64, nontrivial bool) {
+	Ticks.Add(1)
 	r.mu.Lock()
 	r.res.Evaluations++
 	if nontrivial {
@@ -112,6 +119,7 @@ func (r *Recorder) Eval(sig uint64, nontrivial bool) {
 
 // Count adds n to a named observation counter.
 func (r *Recorder) Count(name string, n int64) {
+	Ticks.Add(1)
 	r.mu.Lock()
 	r.res.Counters[name] += n
 	r.mu.Unlock()
@@ -119,6 +127,7 @@ func (r *Recorder) Count(name string, n int64) {
 
 // Max keeps the maximum seen for a named gauge.
 func (r *Recorder) Max(name string, n int64) {
+	Ticks.Add(1)
 	r.mu.Lock()
 	if n > r.res.Counters[name] {
 		r.res.Counters[name] = n
